@@ -9,6 +9,7 @@
 package simio
 
 import (
+	"bytes"
 	"errors"
 	"fmt"
 	"io"
@@ -523,6 +524,22 @@ type SimWriter struct {
 	RawBuf []byte
 }
 
+const maxKeep = 64 << 20
+
+// Bounded is a writer that keeps the first 64 MiB and accepts (and counts) the rest.
+type Bounded struct {
+	bytes.Buffer
+	Dropped int
+}
+
+func (b *Bounded) Write(p []byte) (int, error) {
+	if b.Len() >= maxKeep {
+		b.Dropped += len(p)
+		return len(p), nil
+	}
+	return b.Buffer.Write(p)
+}
+
 func NewSimWriter(s *Sched, obj int, gated bool) *SimWriter {
 	return &SimWriter{s: s, obj: obj, Gated: gated}
 }
@@ -532,7 +549,9 @@ func (w *SimWriter) Write(p []byte) (int, error) {
 		w.LateWrites.Add(1)
 	}
 	if w.Raw {
-		w.RawBuf = append(w.RawBuf, p...)
+		if len(w.RawBuf) < maxKeep {
+			w.RawBuf = append(w.RawBuf, p...)
+		}
 		return len(p), nil
 	}
 	w.mu.Lock()
@@ -544,7 +563,9 @@ func (w *SimWriter) Write(p []byte) (int, error) {
 		s.Enter(w.obj, KWrite, seq)
 	}
 	w.mu.Lock()
-	w.buf = append(w.buf, p...)
+	if len(w.buf) < maxKeep {
+		w.buf = append(w.buf, p...) // a library that never stops writing must not take the worker's memory with it
+	}
 	w.calls++
 	w.mu.Unlock()
 	if s != nil && gated {
